@@ -152,10 +152,20 @@ func H_C07(entry, cenc, renc, kind, provider int) {
 		late = []int{0, 204, 304, 500}[nondetChoice("late", 4)]
 	}
 	hijack := kind == 0 && nondetBool("hijack")
+	// a handler that never calls Write (a DELETE answering 204, a handler that does nothing): an encoded response
+	// must still be a complete stream of the coding it announces
+	silent := kind == 0 && !hijack && nondetBool("silent")
 	expected := ""
 	body := func(w http.ResponseWriter) {
 		if kind == 2 {
 			panic("boom")
+		}
+		if silent {
+			verifCover("handler-never-writes")
+			if late != 0 {
+				w.WriteHeader(late)
+			}
+			return
 		}
 		if hijack {
 			// taking over the connection must not hand the compressor back while the response still uses it
